@@ -19,7 +19,7 @@ def hdr(name, size, typ=b"0", visor=True, offset_data=0, text=0, fix=0, mode=0o6
     b[345:345 + len(pb)] = pb
     lb = linkname.encode()[:100]
     b[157:157 + len(lb)] = lb
-    nb = name.encode()[:100]
+    nb = (name if isinstance(name, bytes) else name.encode())[:100]
     b[0:len(nb)] = nb
     b[100:108] = b"%07o\0" % mode
     b[108:116] = b"%07o\0" % 0
